@@ -63,7 +63,7 @@ def run(chk):
     res = chk.add_tlc("S1_timing", tlc.run("MC_Versioning", "MC_Versioning", workers=16, env={"OUT_FILE": out}, scratch=chk.scratch, coverage=False))
     if not res.completed:
         chk.spec_violation("S1_timing", res)
-    res = chk.add_tlc("S1_changes", tlc.run("MC_Versioning", "MC_VersioningChanges", workers=16, scratch=chk.scratch))
+    res = chk.add_tlc("S1_changes", tlc.run("MC_Versioning", "MC_VersioningChanges", workers=16, scratch=chk.scratch, coverage=True))
     if not res.completed:
         chk.spec_violation("S1_changes", res)
     neg = tlc.run("Neg_Versioning", "Neg_Versioning", workers=4, scratch=chk.scratch)
